@@ -6,6 +6,12 @@ C34 driver.  One line per *phase* of a generated RMA program:
 
   ph <kind> <n> <w> <du> M <n*w ints: windows before the phase> (B <origin> | <call>)*  =>  W <n*w ints> (R <id> <k> <k ints>)* (E <id>)*
 
+<w>: the window size in ints: one number (all ranks the same) or `w_0,..,w_{n-1}` (every rank exposes a window of its own
+size; then the M and W sections have n * max_r w_r ints, each window padded with 0); the range check of a call uses the
+size of the call's *target* (`Call.execW`).
+<du>: the displacement unit every rank gave to MPI_Win_create: one number (all ranks the same) or `du_0,du_1,..,du_{n-1}`
+(one per rank); the displacement of a call is converted with the unit of the call's *target* (`dispIndexAt`).
+
 kind: X exclusive-lock epochs (a `B` starts an epoch = atomic block), S lock_all, F fence (every call is its own block;
 `B <origin>` just switches the origin), N calls outside any epoch (every call must fail with an error, no effect).
 calls:  put id t disp cnt v*  |  get id t disp cnt  |  acc id t disp cnt op v*  |  gacc id t disp cnt op v*
@@ -31,7 +37,7 @@ structure PState where
   kind : String
   n : Nat
   w : Nat
-  du : Nat
+  dus : List Nat                          -- displacement unit of every rank's window
   cur : Nat := 0                          -- current origin
   blocks : List (Nat × List (Nat × Call)) := []    -- reversed: (origin, calls reversed with ids)
 
@@ -51,22 +57,31 @@ partial def parseCalls (p : PState) : List String → Option PState
   | "put" :: id :: t :: d :: n :: rest => do
     let (id, t, d, n) := (← id.toNat?, ← t.toNat?, ← d.toNat?, ← n.toNat?)
     let (vals, rest) ← takeInts n rest
-    parseCalls (p.addCall id (.put t (← dispIndex p.du d) vals)) rest
+    parseCalls (p.addCall id (.put t (← dispIndexAt p.dus t d) vals)) rest
   | "get" :: id :: t :: d :: n :: rest => do
     let (id, t, d, n) := (← id.toNat?, ← t.toNat?, ← d.toNat?, ← n.toNat?)
-    parseCalls (p.addCall id (.get id t (← dispIndex p.du d) n)) rest
+    parseCalls (p.addCall id (.get id t (← dispIndexAt p.dus t d) n)) rest
   | "acc" :: id :: t :: d :: n :: op :: rest => do
     let (id, t, d, n) := (← id.toNat?, ← t.toNat?, ← d.toNat?, ← n.toNat?)
     let (vals, rest) ← takeInts n rest
-    parseCalls (p.addCall id (.acc t (← dispIndex p.du d) (← parseOp op) vals)) rest
+    parseCalls (p.addCall id (.acc t (← dispIndexAt p.dus t d) (← parseOp op) vals)) rest
   | "gacc" :: id :: t :: d :: n :: op :: rest => do
     let (id, t, d, n) := (← id.toNat?, ← t.toNat?, ← d.toNat?, ← n.toNat?)
     let (vals, rest) ← takeInts n rest
-    parseCalls (p.addCall id (.gacc id t (← dispIndex p.du d) (← parseOp op) vals)) rest
+    parseCalls (p.addCall id (.gacc id t (← dispIndexAt p.dus t d) (← parseOp op) vals)) rest
   | "cas" :: id :: t :: d :: cmp :: new :: rest => do
     let (id, t, d) := (← id.toNat?, ← t.toNat?, ← d.toNat?)
-    parseCalls (p.addCall id (.cas id t (← dispIndex p.du d) (← cmp.toInt?) (← new.toInt?))) rest
+    parseCalls (p.addCall id (.cas id t (← dispIndexAt p.dus t d) (← cmp.toInt?) (← new.toInt?))) rest
   | _ => none
+
+/-- `4` (uniform) or `4,1,8` (per rank; must have n entries) -/
+def parseDus (n : Nat) (tok : String) : Option (List Nat) :=
+  let l := (tok.splitOn ",").map String.toNat?
+  if !l.all Option.isSome then none
+  else
+    match l.filterMap id with
+    | [du] => some (List.replicate n du)
+    | dus => if dus.length == n then some dus else none
 
 def chunk (w : Nat) : Nat → List Int → List (List Int)
   | 0, _ => []
@@ -90,12 +105,14 @@ def sortNat (l : List Nat) : List Nat := (l.toArray.qsort (· < ·)).toList
 def judge (q a : List String) : Verdict :=
   match q with
   | "ph" :: kind :: n :: w :: du :: "M" :: rest =>
-    match n.toNat?, w.toNat?, du.toNat? with
-    | some n, some w, some du =>
+    match n.toNat?, (n.toNat?).bind (fun n => parseDus n w), (n.toNat?).bind (fun n => parseDus n du) with
+    | some n, some wl, some dus =>
+      let w := wl.foldl max 0                               -- width of the M / W sections
+      let ws : WSizes := fun r => wl.getD r 0               -- size of every rank's window
       match takeInts (n * w) rest with
       | none => .bad
       | some (m0l, rest) =>
-        match parseCalls { kind := kind, n := n, w := w, du := du } rest, a with
+        match parseCalls { kind := kind, n := n, w := w, dus := dus } rest, a with
         | some p, "W" :: arest =>
           match takeInts (n * w) arest with
           | none => .bad
@@ -106,7 +123,7 @@ def judge (q a : List String) : Verdict :=
               let blocks := p.blocks.reverse.map (fun (o, cs) => (o, cs.reverse))
               let allCalls := blocks.flatMap (fun (_, cs) => cs)
               let m0 := memOfWins (chunk w n m0l)
-              let errModel := sortNat ((allCalls.filter (fun (_, c) => kind == "N" || c.rangeErr w)).map (·.1))
+              let errModel := sortNat ((allCalls.filter (fun (_, c) => kind == "N" || c.rangeErr (ws c.target))).map (·.1))
               let errImpl := sortNat ans.errs
               if errModel != errImpl then .disagree s!"errors={errModel}"
               else
@@ -119,10 +136,10 @@ def judge (q a : List String) : Verdict :=
                   let ph : Phase := (List.range n).map (fun o =>
                     (blocks.filter (fun (o', _) => o' == o)).map (fun (_, cs) => cs.map (·.2)))
                   if phaseCommutes ph then
-                    let mc := canonical w m0 ph
+                    let mc := canonical ws m0 ph
                     if matchesObs n w mc obs then .ok
                     else .monfail s!"unique-result expected W {winsOfMem n w mc} R {results.map (fun (id, vals) => (id, (List.range vals.length).map (fun k => mc (.res id k))))}"
-                  else if allowed n w m0 ph obs then .ok
+                  else if allowed n w ws m0 ph obs then .ok
                   else .monfail s!"no serialisation of the {blocks.length} blocks gives this observation ({(merges ph).length} orders tried)"
         | _, _ => .bad
     | _, _, _ => .bad
